@@ -143,7 +143,11 @@ def run_case(case):
                                 yield d, st
                         row.clear()
                     return gen()
-            srv_ts = [ts] if variant != 'c_find' else None
+            # with other query users around, the provider speaks all three syntaxes and every
+            # other user negotiates a different one than ours (same context id, other byte
+            # order): what is negotiated on one association must stay there
+            all_ts = [TSS[k_] for k_ in sorted(TSS)]
+            srv_ts = ([ts] if not case.get('others') else all_ts) if variant != 'c_find' else None
             srv = world.make_ae(Srv, 'SRV', 11112, srv_ts, case['smax'])
             srv.timeout = 300
             srv.add_scp(sopclass.qr_find_scp).add_scp(sopclass.modality_work_list_scp)
@@ -225,8 +229,11 @@ def run_case(case):
             # further query users on the same server AE at the same time: their provider
             # loops encode and send concurrently with ours
             try:
+                all_ts_ = [TSS[k_] for k_ in sorted(TSS)]
+                other_ts = all_ts_[(all_ts_.index(ts) + 1 + i) % len(all_ts_)] \
+                    if ts in all_ts_ else ts
                 oc = world.make_ae(applicationentity.ClientAE, 'OTH%d' % i,
-                                   [ts] if variant != 'c_find' else None, 16384)
+                                   [other_ts] if variant != 'c_find' else None, 16384)
                 oc.timeout = 300
                 oc.add_scu(sopclass.qr_find_scu)
                 q = pydicom.Dataset()
